@@ -182,6 +182,9 @@ def g_case(rng):
     if mode == "action":
         case["n"] = rng.choice([2, 2, 3])
         case["k"] = rng.randrange(case["n"])
+    if mode not in ("sibling",):
+        # the same statement as a member of an or-group / as the condition of a `when` block (forked heads)
+        case["wrap"] = rng.choice(["plain", "plain", "plain", "or", "when"])
     vals = list(init)
     seen_pats = []
     nsteps = rng.choice([2, 3, 4, 5, 6, 7])
@@ -230,6 +233,16 @@ def g_case(rng):
 
 # ----------------------------------------------------------------------------- program
 
+def _stmt_lines(case, ind, stmt, tag):
+    """the waiting statement followed by `send Hit(tag=..)`: plain, in an or-group, or as a `when` condition"""
+    wrap = case.get("wrap", "plain")
+    if wrap == "or":
+        return [f"{ind}match {stmt} or NeverEv()", f"{ind}send Hit(tag={tag})"]
+    if wrap == "when":
+        return [f"{ind}when {stmt}", f"{ind}  send Hit(tag={tag})", f"{ind}or when NeverEv()", f"{ind}  send Other()"]
+    return [f"{ind}match {stmt}", f"{ind}send Hit(tag={tag})"]
+
+
 def source(case):
     base = _base()
     mode, nvars, loop = case["mode"], case["nvars"], case["loop"]
@@ -245,7 +258,7 @@ def source(case):
         L += ["flow waiter $tag"] + [f"  global $g{i}" for i in range(nvars)]
         if loop:
             L.append("  while True")
-        L += [f"{ind}match Ev(x={pat})" if case.get("shared") else f"{ind}match Ev(x={pat}, t=$tag)", f"{ind}send Hit(tag=$tag)"]
+        L += _stmt_lines(case, ind, f"Ev(x={pat})" if case.get("shared") else f"Ev(x={pat}, t=$tag)", "$tag")
         L.append("flow main")
         if mode == "setter":
             for i in range(nvars):
@@ -258,7 +271,7 @@ def source(case):
         L += ["flow main"] + [f"  global $g{i}" for i in range(nvars)]
         for j in range(case["n"]):
             L.append(f'  start UtteranceBotAction(script="one") as $a{j}')
-        L += [f"  match $a{case['k']}.Finished(final_script={pat})", "  send Hit(tag=0)", "  match Never()"]
+        L += _stmt_lines(case, "  ", f"$a{case['k']}.Finished(final_script={pat})", "0") + ["  match Never()"]
     elif mode == "flowattr":
         pat = render_tmpl(case["tmpl"], lambda i: f"$h{i}.val")
         for i in range(nvars):
@@ -268,7 +281,7 @@ def source(case):
             L.append(f"  start holder{i} as $h{i}")
         if loop:
             L.append("  while True")
-        L += [f"{ind}match Ev(x={pat}, t=0)", f"{ind}send Hit(tag=0)"]
+        L += _stmt_lines(case, ind, f"Ev(x={pat}, t=0)", "0")
         if not loop:
             L.append("  match Never()")
     elif mode == "actattr":
@@ -278,7 +291,7 @@ def source(case):
             L.append(f'  start TimerBotAction(timer_name="t{i}", v={base.render(case["init"][i])}) as $a{i}')
         if loop:
             L.append("  while True")
-        L += [f"{ind}match Ev(x={pat}, t=0)", f"{ind}send Hit(tag=0)"]
+        L += _stmt_lines(case, ind, f"Ev(x={pat}, t=0)", "0")
         if not loop:
             L.append("  match Never()")
     elif mode == "sibling":
@@ -525,6 +538,8 @@ def shrink(case):
             yield dict(case, steps=steps[:i] + steps[i + 1:])
     if case.get("loop"):
         yield dict(case, loop=False)
+    if case.get("wrap", "plain") != "plain":
+        yield dict(case, wrap="plain")
     if case.get("ninst", 1) > 1 and not case.get("shared"):
         yield dict(case, ninst=1)
     t = case["tmpl"]
@@ -536,7 +551,7 @@ def shrink(case):
 
 
 def tags(case, obs):
-    t = ["hist:" + case["mode"], "hist-steps:%d" % len(case["steps"])]
+    t = ["hist:" + case["mode"], "hist-steps:%d" % len(case["steps"]), "hist-wrap:" + case.get("wrap", "plain")]
     if "skip" in obs:
         return t + ["skip:" + obs["skip"]]
     exp, n = expected_hits(case)
